@@ -55,11 +55,19 @@ class ClaimsRegistry:
 
 class JWTClaimsRegistry(ClaimsRegistry):
     def __init__(self, now: int | None = None, leeway: int = 0, **kwargs: ClaimsOption):
+        self._fixed_now = now is not None
         if now is None:
             now = int(time.time())
         self.now = now
         self.leeway = leeway
         super().__init__(**kwargs)
+
+    def validate(self, claims: dict[str, Any]) -> None:
+        # without an explicit "now" the claims are judged at the time of the
+        # validation, not at the time this (possibly long-lived) registry was built
+        if not self._fixed_now:
+            self.now = int(time.time())
+        super().validate(claims)
 
     def validate_aud(self, value: str | list[str]) -> None:
         """The "aud" (audience) claim identifies the recipients that the JWT is
